@@ -370,11 +370,11 @@ def ok_term(ok):
 
 
 def exn_term(x):
-    return '(mkExn %s %s %s)' % (strlit(x[0]), boollit(x[1]), strlit(x[2]))
+    return '(mkExn %s %s %s)' % (zs(x[0]), boollit(x[1]), zs(x[2]))
 
 
 def entry_term(ok, grade, msg):
-    return '(mkEntry %s %s %s)' % (ok_term(ok), qlit(grade), strlit(msg))
+    return '(mkEntry %s %s %s)' % (ok_term(ok), qlit(grade), zs(msg))
 
 
 def line_term(l):
@@ -391,12 +391,12 @@ def line_term(l):
 
 def outcome_term(o):
     if o[0] == 'raise':
-        return '(ORaise (mkExn %s true %s))' % (strlit(o[1]), strlit(o[2]))
+        return '(ORaise (mkExn %s true %s))' % (zs(o[1]), zs(o[2]))
     if o[0] == 'ret':
         log = 'None' if o[4] is None else '(Some %s)' % listlit([line_term(l) for l in o[4]])
         return '(ORet %s %s)' % (entry_term(o[1], o[2], o[3]), log)
     # anything else cannot be produced by the model: a marker that compares unequal to every model outcome
-    return '(ORaise (mkExn %s false %s))' % (strlit('<' + o[0] + '>'), strlit(repr(o[1:])[:200]))
+    return '(ORaise (mkExn %s false %s))' % (zs('<' + o[0] + '>'), zs(repr(o[1:])[:200]))
 
 
 def match_fn(name, args, ret_type, rows, default):
@@ -442,28 +442,72 @@ def tables_coq(T, canon, configured, debug, has_defaults, outcomes):
         elif v[0] == 'raise':
             rows.append(((a, zlit(k)), '(CRaise %s %s)' % (exn_term(v[1]), ls)))
     out.append(match_fn('t_check', [('a', 'option Z'), ('s', 'Z')], 'cres Z', rows, '(CRaise none_exn [])'))
-    rows = [((zlit(k),), strlit(v)) for k, v in sorted(T['show'].items())]
+    rows = [((zlit(k),), zs(v)) for k, v in sorted(T['show'].items())]
     out.append(match_fn('t_show', [('s', 'Z')], 'str', rows, '[]'))
     out.append('Definition t_oracles : oracles Z Z Z Z := mkOracles t_infer t_schema t_post t_text t_check t_show.\n')
     out.append('Definition t_outcomes : list (outcome Z Z Z) :=\n  [ %s ].\n' % '\n  ; '.join(outcome_term(o) for o in outcomes))
-    out.append('Definition t_agree := ZI.agree %s (mkConfig %s) t_oracles Verif.Gen.Protocol.gen_create_prog '
-               'Verif.Gen.Protocol.gen_call_prog t_outcomes %s.\n'
-               % (boollit(has_defaults), boollit(debug), '(Some %s)' % zlit(A_CFG) if configured else 'None'))
-    out.append('Definition t_meets := ZI.meets_spec %s (mkConfig %s) t_oracles Verif.Gen.Protocol.gen_create_prog '
-               'Verif.Gen.Protocol.gen_call_prog %s.\n'
-               % (boollit(has_defaults), boollit(debug), '(Some %s)' % zlit(A_CFG) if configured else 'None'))
     return ''.join(out)
 
 
-def event_term(ev):
+def zs(s):
+    """Python str -> list Z literal (Z_scope is open in the case files)"""
+    return '[' + '; '.join(str(ord(c)) for c in s) + ']' if s else '[]'
+
+
+COMPACT = """
+(* compact constructors for the case terms *)
+Definition V : line Z Z Z := LVersion.
+Definition D : line Z Z Z := LDefaults.
+Definition R (s : Z) : line Z Z Z := LResp s.
+Definition I_ (e : Z) : line Z Z Z := LInferred e.
+Definition C (l : Z) : line Z Z Z := LChk l.
+Definition ob (i a inf crt : Z) (lg : list (line Z Z Z)) : ZI.observed :=
+  ZI.mkObs (Z.to_nat i) (if a =? 99 then None else Some a) (0 <? inf) (0 <? crt) lg.
+Inductive tr := Nd : Z -> Z -> Z -> ZI.observed -> list tr -> tr.     (* node id, expect (9 = absent), input, observed, children *)
+Definition evt (e s : Z) : event Z Z := (if e =? 9 then None else Some e, s).
+"""
+
+AGREE = """
+(* failing node ids: the regenerated program, run on the very events, must reproduce outcome and state at every node *)
+Fixpoint failing (m : state Z Z Z Z) (t : tr) : list Z :=
+  match t with
+  | Nd id e s o kids =>
+      let '(m', out) := call @COMMON@ m (fst (evt e s)) s in
+      let here := ZI.outcome_eqb out (nth (ZI.ob_outcome o) t_outcomes (ORaise none_exn)) && ZI.state_agrees m' o in
+      (if here then [] else [id]) ++
+      (fix go (ks : list tr) : list Z := match ks with [] => [] | k :: ks' => failing m' k ++ go ks' end) kids
+  end.
+Definition failing_all (ts : list tr) : list Z := flat_map (failing (init_state @CFGD@)) ts.
+(* model-side search: nodes at which the regenerated program itself departs from the property *)
+Fixpoint departs (done : list (event Z Z)) (m : state Z Z Z Z) (t : tr) : list Z :=
+  match t with
+  | Nd id e s o kids =>
+      let '(m', out) := call @COMMON@ m (fst (evt e s)) s in
+      let here := ZI.outcome_eqb out (spec @COMMON@ @CFGD@ done (fst (evt e s)) s) in
+      (if here then [] else [id]) ++
+      (fix go (ks : list tr) : list Z := match ks with [] => [] | k :: ks' => departs (done ++ [evt e s]) m' k ++ go ks' end) kids
+  end.
+Definition departs_all (ts : list tr) : list Z := flat_map (departs [] (init_state @CFGD@)) ts.
+"""
+
+
+def agree_defs(configured, debug, has_defaults):
+    cfgd = '(Some %s)' % zlit(A_CFG) if configured else 'None'
+    common = ('%s (mkConfig %s) t_oracles Verif.Gen.Protocol.gen_create_prog Verif.Gen.Protocol.gen_call_prog'
+              % (boollit(has_defaults), boollit(debug)))
+    return AGREE.replace('@COMMON@', common).replace('@CFGD@', cfgd)
+
+
+def line_c(l):
+    return {'V': 'V', 'D': 'D'}.get(l[0]) or '%s %d' % ({'R': 'R', 'I': 'I_', 'C': 'C'}[l[0]], l[1])
+
+
+def node_term(nid, ev, ob, kids):
     e, s = ev
-    return '(%s, %s)' % ('None' if e is None else 'Some %s' % zlit(e), zlit(s))
-
-
-def obs_term(o):
-    oi, aid, inf, crt, log = o
-    return '(ZI.mkObs %s %s %s %s %s)' % (natlit(oi), 'None' if aid is None else '(Some %s)' % zlit(aid),
-                                          boollit(inf), boollit(crt), listlit([line_term(l) for l in log]))
+    oi, aid, inf, crt, log = ob
+    return 'Nd %d %d %d (ob %d %d %d %d [%s]) [%s]' % (
+        nid, 9 if e is None else e, s, oi, 99 if aid is None else (98 if aid < 0 else aid), int(inf), int(crt),
+        '; '.join(line_c(l) for l in log), '; '.join(kids))
 
 
 # ------------------------------------------------------------------------------------------------
@@ -484,28 +528,29 @@ def sequences_for(spec, tier, escalate, seed, combo_name):
     rng = random.Random('%s/%s/%s' % (seed, combo_name, tier))
     n_rand = 60 if tier == 'quick' else 600
     if escalate and tier == 'quick':
-        n_rand = 400
+        n_rand = 150
     for _ in range(n_rand):
         n = rng.randint(4, 12)
         seqs.append([rng.choice(full_events) for _ in range(n)])
     return seqs, len(core_events), len(full_events)
 
 
-def run_sequence(spec, configured, debug, canon, T, events):
+def observe(g, canon, T, debug, e, s):
+    ev = None if e is None else canon.expects[e]
+    st, v = core.guarded(g, ev, canon.inputs[s])
+    o = canon.outcome(st, v, g, debug)
+    aid = T['fp2id'].get(fp(g.config['answers'], ident=False), -1)
+    return (o, aid, bool(g.inferring_answers), bool(g.log_created), canon.lines(list(getattr(g, 'debuglog', []))))
+
+
+def run_sequence(spec, configured, debug, canon, T, events, start=None):
     """run one history on a real instance; returns per-call (outcome, answers id, inferring, log_created, log lines)"""
-    g = build(spec, configured, debug)
-    out = []
-    for (e, s) in events:
-        ev = None if e is None else canon.expects[e]
-        st, v = core.guarded(g, ev, canon.inputs[s])
-        o = canon.outcome(st, v, g, debug)
-        aid = T['fp2id'].get(fp(g.config['answers'], ident=False), -1)
-        out.append((o, aid, bool(g.inferring_answers), bool(g.log_created), canon.lines(list(getattr(g, 'debuglog', [])))))
-    return out, g
+    g = build(spec, configured, debug) if start is None else copy.deepcopy(start)
+    return [observe(g, canon, T, debug, e, s) for (e, s) in events], g
 
 
 def fresh_reference(spec, configured, debug, canon, cache, eff, s):
-    """what a freshly constructed grader returns for (eff, input s)"""
+    """what a freshly CONSTRUCTED grader returns for (eff, input s)"""
     key = (eff, s)
     if key not in cache:
         g = build(spec, configured, debug)
@@ -515,8 +560,154 @@ def fresh_reference(spec, configured, debug, canon, cache, eff, s):
     return cache[key]
 
 
-def shrink(spec, configured, debug, canon, T, cache, events, fails):
-    """drop history events while the last call still violates"""
+def demanded(spec, configured, debug, canon, T, cache, events):
+    """the outcome the property demands of the last call of `events`"""
+    last = None
+    for (e, s) in events[:-1]:
+        if e is not None and T['stage'][e][0] == 'valid':
+            last = e
+    e, s = events[-1]
+    if configured:
+        return fresh_reference(spec, configured, debug, canon, cache, None, s)
+    want = fresh_reference(spec, configured, debug, canon, cache, e if e is not None else last, s)
+    return strip_inferred(want) if e is None else want
+
+
+def sweep_combo(args):
+    name, configured, debug, tier, escalate, seed = args
+    t0 = time.time()
+    spec = class_specs()[name]
+    canon = Canon(spec)
+    T = measure_tables(spec, configured, debug, canon)
+    seqs, n_core, n_full = sequences_for(spec, tier, escalate, seed, '%s/%s/%s' % (name, configured, debug))
+    before_settings = settings_snapshot()
+    pristine = build(spec, configured, debug)
+    pristine_fp = fp(pristine, ident=False)
+    cache = {}
+    # ---- the prefix tree of all histories
+    kids = {(): []}
+    for sq in seqs:
+        for i in range(len(sq)):
+            pre, ev = tuple(sq[:i]), sq[i]
+            lst = kids.setdefault(pre, [])
+            if ev not in lst:
+                lst.append(ev)
+                kids.setdefault(pre + (ev,), [])
+    nodes = {}            # path -> (obs, bad, want)
+    calls = 0
+
+    def visit(path, g):
+        nonlocal calls
+        for ev in kids[path]:
+            g2 = copy.deepcopy(g)
+            ob = observe(g2, canon, T, debug, ev[0], ev[1])
+            calls += 1
+            p2 = path + (ev,)
+            want = demanded(spec, configured, debug, canon, T, cache, list(p2))
+            nodes[p2] = (ob, ob[0] != want, want)
+            if kids[p2]:
+                visit(p2, g2)
+    visit((), pristine)
+    notes = []
+    if fp(pristine, ident=False) != pristine_fp:
+        notes.append('the pristine instance changed although only copies of it were called')
+    # ---- cloning is only a shortcut: re-run a sample of whole histories on CONSTRUCTED instances
+    rng = random.Random('%s/%s/%s/%s/check' % (seed, name, configured, debug))
+    leaves = [p for p in nodes if not kids[p]]
+    recheck = 0
+    clone_mismatch = []
+    for p in rng.sample(leaves, min(len(leaves), 40 if tier == 'quick' else 200)):
+        obs, _ = run_sequence(spec, configured, debug, canon, T, list(p))
+        calls += len(p)
+        recheck += 1
+        for i in range(len(p)):
+            if obs[i] != nodes[p[:i + 1]][0]:
+                clone_mismatch.append([list(ev) for ev in p[:i + 1]])
+                break
+    # ---- witnesses: first violating call along each path, shrunk
+    verdicts = {p: v[1] for p, v in nodes.items()}
+
+    def fails(events):
+        k = tuple(events)
+        if k not in verdicts:
+            obs, _ = run_sequence(spec, configured, debug, canon, T, list(events), start=pristine)
+            verdicts[k] = obs[-1][0] != demanded(spec, configured, debug, canon, T, cache, list(events))
+        return verdicts[k]
+    witnesses, wit_seen = [], set()
+    stage = T['stage']
+    for p in sorted(nodes, key=lambda q: (len(q), repr(q))):
+        if not nodes[p][1] or any(nodes[p[:i]][1] for i in range(1, len(p))):
+            continue
+        hist = shrink(list(p), fails)
+        key = 'history:%s/%s/%s/%s' % (name, 'configured' if configured else 'inferring',
+                                       'debug' if debug else 'nodebug', json.dumps(hist))
+        if key in wit_seen:
+            continue
+        wit_seen.add(key)
+        obs, _ = run_sequence(spec, configured, debug, canon, T, hist)          # on a constructed instance
+        got = obs[-1][0]
+        want = demanded(spec, configured, debug, canon, T, cache, hist)
+        if got == want:
+            notes.append('history %r violates on a cloned instance only' % (hist,))
+            continue
+        witnesses.append(history_witness(name, configured, debug, canon, T, hist, got, want, key))
+    after_settings = settings_snapshot()
+    for k in diff_snap(before_settings, after_settings):
+        witnesses.append({'key': 'settings:%s/%s' % (name, k), 'kind': 'settings', 'grader': name, 'configured': configured,
+                          'debug': debug, 'setting': k, 'what': 'process-wide setting %s changed during the sweep' % k})
+    # ---- Coq terms
+    outcomes, oidx = [], {}
+    ids, paths = {}, []
+    for p in nodes:
+        ids[p] = len(paths)
+        paths.append(p)
+
+    def term(p):
+        ob = nodes[p][0]
+        if ob[0] not in oidx:
+            oidx[ob[0]] = len(outcomes)
+            outcomes.append(ob[0])
+        return node_term(ids[p], p[-1], (oidx[ob[0]],) + ob[1:], [term(p + (ev,)) for ev in kids[p]])
+
+    def size(p):
+        return 1 + sum(size(p + (ev,)) for ev in kids[p])
+    tops = [((ev,), size((ev,))) for ev in kids[()]]
+    top_terms = [(term(p), n) for p, n in tops]
+    has_defaults = bool(getattr(pristine, 'modified_defaults', None))
+    header = tables_coq(T, canon, configured, debug, has_defaults, outcomes) + COMPACT + agree_defs(configured, debug, has_defaults)
+    dist = {'raise': 0, 'ret': 0, 'other': 0}
+    for p, v in nodes.items():
+        k = v[0][0][0]
+        dist['raise' if k == 'raise' else 'ret' if k == 'ret' else 'other'] += 1
+    mid = paths[len(paths) // 2]
+    return {'name': name, 'configured': configured, 'debug': debug, 'header': header, 'tops': top_terms,
+            'paths': [[list(ev) for ev in p] for p in paths], 'witnesses': witnesses, 'calls': calls, 'nodes': len(nodes),
+            'histories': len(seqs), 'leaves': len(leaves), 'rechecked': recheck, 'clone_mismatch': clone_mismatch,
+            'dist': dist, 'seconds': time.time() - t0, 'n_core': n_core, 'n_full': n_full, 'notes': notes,
+            'violating_nodes': sum(1 for v in nodes.values() if v[1]),
+            'nontrivial': sum(1 for p in nodes if len(p) >= 2 and any(nodes[p[:i + 1]][0][0][0] == 'ret'
+                                                                      for i in range(len(p)))),
+            'stages': {repr(canon.expects[k]): v[0] for k, v in stage.items()},
+            'sample': {'calls': [[None if e is None else repr(canon.expects[e]), repr(canon.inputs[s])] for e, s in mid],
+                       'observed_last': repr(nodes[mid][0])[:300], 'demanded_last': repr(nodes[mid][2])[:300]}}
+
+
+def history_witness(name, configured, debug, canon, T, hist, got, want, key):
+    stage = T['stage']
+    return {'key': key, 'kind': 'history', 'grader': name, 'configured': configured, 'debug': debug,
+            'events': [list(ev) for ev in hist],
+            'calls': [[None if ee is None else repr(canon.expects[ee]), repr(canon.inputs[ss])] for ee, ss in hist],
+            'stages': [None if ee is None else stage[ee][0] for ee, ss in hist],
+            'text_inputs': [T['text'][ss] is None for ee, ss in hist],
+            'same_verdict': got[:4] == want[:4] if got[0] == 'ret' and want[0] == 'ret' else False,
+            'observed_log': None if got[0] != 'ret' or got[4] is None else [list(l) for l in got[4]],
+            'observed': repr(got)[:400], 'expected_by_oracle': repr(want)[:400],
+            'what': 'call %d of the history returns %s; a freshly constructed grader returns %s'
+                    % (len(hist), short(got), short(want))}
+
+
+def shrink(events, fails):
+    """drop history events (never the last call) while the last call still violates"""
     cur = list(events)
     changed = True
     while changed:
@@ -528,108 +719,6 @@ def shrink(spec, configured, debug, canon, T, cache, events, fails):
                 changed = True
                 break
     return cur
-
-
-def sweep_combo(args):
-    name, configured, debug, tier, escalate, seed = args
-    t0 = time.time()
-    spec = class_specs()[name]
-    canon = Canon(spec)
-    T = measure_tables(spec, configured, debug, canon)
-    seqs, n_core, n_full = sequences_for(spec, tier, escalate, seed, '%s/%s/%s' % (name, configured, debug))
-    before_settings = settings_snapshot()
-    outcomes, oidx = [], {}
-    terms, metas = [], []
-    witnesses, wit_seen = [], {}
-    cache = {}
-    calls = 0
-    nontrivial = 0
-    dist = {'raise': 0, 'ret': 0, 'other': 0}
-    stage = T['stage']
-
-    verdicts = {}
-
-    def fails(events):
-        k = tuple(events)
-        if k not in verdicts:
-            verdicts[k] = violates(events)[0]
-        return verdicts[k]
-
-    def violates(events):
-        """independent oracle: does the LAST call of this history differ from the fresh reference?"""
-        obs, _ = run_sequence(spec, configured, debug, canon, T, events)
-        last = None
-        for (e, s) in events[:-1]:
-            if e is not None and stage[e][0] == 'valid':
-                last = e
-        e, s = events[-1]
-        if configured:
-            want = fresh_reference(spec, configured, debug, canon, cache, None, s)
-        else:
-            eff = e if e is not None else last
-            want = fresh_reference(spec, configured, debug, canon, cache, eff, s)
-            if e is None:
-                want = strip_inferred(want)
-        return obs[-1][0] != want, obs[-1][0], want
-
-    for events in seqs:
-        obs, g = run_sequence(spec, configured, debug, canon, T, events)
-        calls += len(events)
-        # ---- correspondence case
-        row = []
-        for (o, aid, inf, crt, log) in obs:
-            if o not in oidx:
-                oidx[o] = len(outcomes)
-                outcomes.append(o)
-            row.append((oidx[o], aid, inf, crt, log))
-            dist['raise' if o[0] == 'raise' else 'ret' if o[0] == 'ret' else 'other'] += 1
-        terms.append('(%s, %s)' % (listlit([event_term(ev) for ev in events]), listlit([obs_term(o) for o in row])))
-        metas.append(events)
-        if len(events) >= 2 and any(o[0][0] == 'ret' for o in obs):
-            nontrivial += 1
-        # ---- property oracle: every call against a fresh grader
-        last = None
-        for i, (e, s) in enumerate(events):
-            if configured:
-                want = fresh_reference(spec, configured, debug, canon, cache, None, s)
-            else:
-                eff = e if e is not None else last
-                want = fresh_reference(spec, configured, debug, canon, cache, eff, s)
-                if e is None:
-                    want = strip_inferred(want)
-            got = obs[i][0]
-            verdicts[tuple(events[:i + 1])] = (got != want)
-            if got != want:
-                hist = shrink(spec, configured, debug, canon, T, cache, events[:i + 1], fails)
-                key = 'history:%s/%s/%s/%s' % (name, 'configured' if configured else 'inferring',
-                                               'debug' if debug else 'nodebug', json.dumps(hist))
-                if key not in wit_seen:
-                    _, got2, want2 = violates(hist)
-                    w = {'key': key, 'kind': 'history', 'grader': name, 'configured': configured, 'debug': debug,
-                         'events': hist,
-                         'calls': [[None if ee is None else repr(canon.expects[ee]), repr(canon.inputs[ss])] for ee, ss in hist],
-                         'stages': [None if ee is None else stage[ee][0] for ee, ss in hist],
-                         'text_inputs': [T['text'][ss] is None for ee, ss in hist],
-                         'observed': repr(got2)[:400], 'expected_by_oracle': repr(want2)[:400],
-                         'what': 'call %d of the history returns %s; a freshly constructed grader returns %s'
-                                 % (len(hist), short(got2), short(want2))}
-                    wit_seen[key] = w
-                    witnesses.append(w)
-                break
-            if e is not None and stage[e][0] == 'valid':
-                last = e
-    after_settings = settings_snapshot()
-    for k in diff_snap(before_settings, after_settings):
-        witnesses.append({'key': 'settings:%s/%s' % (name, k), 'kind': 'settings', 'grader': name, 'configured': configured,
-                          'debug': debug, 'setting': k, 'what': 'process-wide setting %s changed during the sweep' % k})
-    has_defaults = bool(getattr(build(spec, configured, debug), 'modified_defaults', None))
-    header = tables_coq(T, canon, configured, debug, has_defaults, outcomes)
-    return {'name': name, 'configured': configured, 'debug': debug, 'header': header, 'terms': terms, 'metas': metas,
-            'witnesses': witnesses, 'calls': calls, 'nontrivial': nontrivial, 'dist': dist, 'seconds': time.time() - t0,
-            'n_core': n_core, 'n_full': n_full, 'stages': {canon.expects[k].__repr__(): v[0] for k, v in stage.items()},
-            'sample': {'events': metas[len(metas) // 2], 'observed': [repr(x)[:160] for x in
-                                                                      run_sequence(spec, configured, debug, canon, T,
-                                                                                   metas[len(metas) // 2])[0]]}}
 
 
 def short(o):
@@ -758,18 +847,25 @@ def graders_state(graders):
     return {n: fp(g) for n, g in graders.items()}
 
 
-def valid_expect(kind, name, expect):
-    """is this expect value successfully supplied to a fresh grader of that world? (inference + validation succeed)"""
+def expect_stage(kind, name, expect):
+    """which validation stage of a fresh grader of that world rejects this expect value ('valid' if none)"""
     graders, _ = world_factory(kind)()
     g = graders[name]
     if not hasattr(g, 'infer_from_expect') or g.config['answers']:
-        return False
-    try:
-        a = g.schema_answers(g.infer_from_expect(expect))
-        g.post_schema_ans_val(a)
-        return True
-    except Exception:        # noqa
-        return False
+        return 'ignored'
+    st, v = core.guarded(g.infer_from_expect, expect)
+    if st != 'ret':
+        return 'infer'
+    st, a = core.guarded(g.schema_answers, v)
+    if st != 'ret':
+        return 'schema'
+    st, a = core.guarded(g.post_schema_ans_val, a)
+    return 'valid' if st == 'ret' else 'post'
+
+
+def valid_expect(kind, name, expect):
+    """is this expect value successfully supplied to a fresh grader of that world? (inference + validation succeed)"""
+    return expect_stage(kind, name, expect) == 'valid'
 
 
 def replay_mixed(kind, calls):
@@ -784,7 +880,17 @@ def replay_mixed(kind, calls):
     return outs, flags, graders
 
 
+_MIXED_REF = {}
+
+
 def mixed_reference(kind, name, last, e, s):
+    key = (kind, name, repr(last), repr(e), repr(s))
+    if key not in _MIXED_REF:
+        _MIXED_REF[key] = _mixed_reference(kind, name, last, e, s)
+    return _MIXED_REF[key]
+
+
+def _mixed_reference(kind, name, last, e, s):
     graders, _ = world_factory(kind)()
     g = graders[name]
     eff = e if e is not None else last
@@ -804,12 +910,28 @@ def mixed_violation(kind, calls):
     return outs[-1] != want, outs[-1], want
 
 
+MIXED_CORPUS = [
+    ('debugsub', [('fgd', '1', '1'), ('single_fd', None, '1,2')]),
+    ('shared', [('single_f', 'x,,1', 'x'), ('single_f', 'x,2*x', 'x,2*x')]),
+]
+
+
 def random_mixed(ctx, res, rng):
     from mitxgraders.helpers.calc.math_array import MathArray
-    n_hist = {'shared': 60, 'matrices': 60, 'debugsub': 6} if ctx['tier'] == 'quick' else \
+    n_hist = {'shared': 40, 'matrices': 40, 'debugsub': 4} if ctx['tier'] == 'quick' else \
         {'shared': 500, 'matrices': 500, 'debugsub': 30}
     total_calls = 0
     valid_cache = {}
+    # corpus: minimised histories found earlier run first, on every run
+    for kind, calls in MIXED_CORPUS:
+        bad, got, want = mixed_violation(kind, calls)
+        res.oracle_evals += len(calls)
+        if bad:
+            res.witnesses.append({'key': 'mixed:%s/%s' % (kind, json.dumps(calls, default=repr)), 'kind': 'mixed', 'world': kind,
+                                  'calls': [list(c) for c in calls],
+                                  'stages': [None if b is None else expect_stage(kind, a, b) for a, b, c in calls],
+                                  'what': 'call returns %s; the same call on a freshly built set of graders returns %s'
+                                          % (repr(got)[:200], repr(want)[:200])})
     with ScopeWatch() as watch:
         for kind, count in n_hist.items():
             for _ in range(count):
@@ -854,7 +976,9 @@ def random_mixed(ctx, res, rng):
                                         break
                         key = 'mixed:%s/%s' % (kind, json.dumps(hist, default=repr))
                         res.witnesses.append({'key': key, 'kind': 'mixed', 'world': kind,
-                                              'calls': [[a, b, c] for a, b, c in hist], 'what': bad})
+                                              'calls': [[a, b, c] for a, b, c in hist],
+                                              'stages': [None if b is None else expect_stage(kind, a, b) for a, b, c in hist],
+                                              'what': bad})
                         break
                     ck = (kind, n, repr(e))
                     if e is not None:
@@ -1027,9 +1151,11 @@ def describe_change(a, b):
     if a[0] == 'dict' and b[0] == 'dict':
         ka = dict((k, v) for k, v in a[1])
         kb = dict((k, v) for k, v in b[1])
-        added = [k[1] for k in kb if k not in ka]
-        removed = [k[1] for k in ka if k not in kb]
-        changed = [k[1] for k in ka if k in kb and ka[k] != kb[k]]
+        def nm(k):
+            return k[1][1:-1] if k[0] == 'str' and len(k[1]) >= 2 else k[1]
+        added = [nm(k) for k in kb if k not in ka]
+        removed = [nm(k) for k in ka if k not in kb]
+        changed = [nm(k) for k in ka if k in kb and ka[k] != kb[k]]
         return 'keys added %s, removed %s, changed %s' % (added, removed, changed)
     return 'value changed'
 
@@ -1050,58 +1176,88 @@ def run(ctx):
     res = core.Result()
     seed = ctx['seed']
     rng = random.Random(1000003 * seed + 11)
-    res.rule = ('sweep: per item-grader class x configured/inferring x debug on/off, every history over the event alphabet '
-                '(expect in {absent, valid, another valid, each kind of invalid} x input in {matches first, matches second, '
-                'malformed text, non-text}) of length 2, every history of length 3 (thorough: 4 and full-alphabet 3) over the '
-                '12-event core alphabet, plus seeded random histories of length 4-12; a history is non-trivial when it has '
-                'at least two calls and at least one call returns a grade. mixed: random interleavings over graders sharing '
-                'subgraders / matrix graders with negative powers off and on; construction: distinct (case, mode).')
+    res.rule = ('sweep: per item-grader class x configured/inferring x debug on/off, the prefix tree of every history over the '
+                'event alphabet (expect in {absent, valid, another valid, each kind of invalid} x input in {matches first, '
+                'matches second, malformed text, non-text}) of length 2, every history of length 3 (thorough: 4, and '
+                'full-alphabet 3) over the 12-event core alphabet, plus seeded random histories of length 4-12; one case per '
+                'tree node (= one call after one history); a node is non-trivial when its history has at least two calls of '
+                'which at least one returns a grade. mixed: random interleavings over graders sharing subgraders / matrix '
+                'graders with negative powers off and on; construction: distinct (case, mode).')
     jobs = [(n, c, d, ctx['tier'], bool(ctx['escalate']), seed) for (n, c, d) in combos()]
     t0 = time.time()
     with multiprocessing.get_context('fork').Pool(min(core.NPROC, len(jobs))) as pool:
         results = pool.map(sweep_combo, jobs, chunksize=1)
     sweep_s = time.time() - t0
     files, index = [], []
-    shard = 1500
+    sweep_nontrivial = 0
+    limit = 1400 if ctx['tier'] == 'quick' else 2500
     for r in results:
         tag = 'c11_%s_%s_%s' % (r['name'].lower(), 'cfg' if r['configured'] else 'inf', 'dbg' if r['debug'] else 'nod')
-        for k in range(0, len(r['terms']), shard):
-            chunk = r['terms'][k:k + shard]
-            text = (r['header'] + 'Definition verif_cases : list (list (event Z Z) * list ZI.observed) :=\n  [ %s ].\n'
-                    % '\n  ; '.join(chunk) +
-                    'Fixpoint verif_failing {A} (f : A -> bool) (l : list A) (i : nat) : list nat :=\n'
-                    '  match l with nil => nil | x :: r => if f x then verif_failing f r (S i) '
-                    'else i :: verif_failing f r (S i) end.\n'
-                    'Eval vm_compute in (verif_failing t_agree verif_cases 0).\n')
-            files.append(('%s_%03d' % (tag, k // shard), text))
-            index.append((r, k))
+        shards, cur, n = [], [], 0
+        for term, size in r['tops']:
+            if cur and n + size > limit:
+                shards.append(cur)
+                cur, n = [], 0
+            cur.append(term)
+            n += size
+        if cur:
+            shards.append(cur)
+        for k, sh in enumerate(shards):
+            text = (r['header'] + 'Definition verif_trees : list tr :=\n  [ %s ].\n' % '\n  ; '.join(sh) +
+                    'Eval vm_compute in (failing_all verif_trees).\n'
+                    'Eval vm_compute in (List.length (departs_all verif_trees)).\n')
+            files.append(('%s_%03d' % (tag, k), text))
+            index.append(r)
         res.witnesses += r['witnesses']
         res.oracle_evals += r['calls']
-        res.programs += len(r['terms'])
+        res.programs += r['nodes']
         key = '%s/%s/%s' % (r['name'], 'configured' if r['configured'] else 'inferring', 'debug' if r['debug'] else 'nodebug')
-        res.distribution.setdefault('sweep', {})[key] = {'histories': len(r['terms']), 'calls': r['calls'],
-                                                         'outcomes': r['dist'], 'seconds': round(r['seconds'], 1)}
-        res.nontrivial |= set((key, json.dumps(ev)) for ev in r['metas'] if len(ev) >= 2)
+        res.distribution.setdefault('sweep', {})[key] = {
+            'histories': r['histories'], 'tree_nodes': r['nodes'], 'calls_run': r['calls'], 'outcomes': r['dist'],
+            'nodes_violating_the_property': r['violating_nodes'], 'histories_rerun_on_constructed_instances': r['rechecked'],
+            'seconds': round(r['seconds'], 1)}
+        sweep_nontrivial += r['nontrivial']
+        res.notes += ['%s: %s' % (key, n) for n in r['notes']]
+        for m in r['clone_mismatch'][:3]:
+            res.disagreements.append({'kind': 'clone-vs-constructed', 'grader': r['name'], 'configured': r['configured'],
+                                      'debug': r['debug'], 'events': m})
     res.distribution['expect_stages'] = {r['name']: r['stages'] for r in results if not r['configured'] and not r['debug']}
     res.distribution['sweep_wall_s'] = round(sweep_s, 1)
-    res.samples.append({'grader': results[5]['name'], 'configured': results[5]['configured'], 'debug': results[5]['debug'],
-                        'history': results[5]['sample']})
+    smp = results[17]
+    res.samples.append({'grader': smp['name'], 'configured': smp['configured'], 'debug': smp['debug'], 'history': smp['sample']})
     t1 = time.time()
     outs = core.run_case_files(files)
     res.distribution['coq_wall_s'] = round(time.time() - t1, 1)
-    for (name, rc, out), (r, k) in zip(outs, index):
-        idx = core.failing_indices(out) if rc == 0 else None
-        if idx is None:
+    res.distribution['coq_case_files'] = len(files)
+    departs = 0
+    for (name, rc, out), r in zip(outs, index):
+        m = re.search(r'=\s*(\[.*?\]|nil)\s*:\s*list\s+Z', out, re.S) if rc == 0 else None
+        if m is None:
             res.corr_errors.append((name, out[-2000:]))
             continue
+        idx = [int(x) for x in re.findall(r'-?\d+', m.group(1))]
+        m2 = re.search(r'=\s*(\d+)%nat', out)
+        departs += int(m2.group(1)) if m2 else 0
         for i in idx[:5]:
+            ev = r['paths'][i]
             res.disagreements.append({'kind': 'history', 'grader': r['name'], 'configured': r['configured'],
-                                      'debug': r['debug'], 'events': r['metas'][k + i]})
+                                      'debug': r['debug'], 'events': ev})
         if len(idx) > 5:
             res.disagreements.append({'kind': 'history', 'grader': r['name'], 'more': len(idx) - 5})
+    res.distribution['nodes_where_the_regenerated_program_departs_from_the_property'] = departs
     res.exhaustive = True
+    t2 = time.time()
     construction_checks(ctx, res)
+    res.distribution['construction_wall_s'] = round(time.time() - t2, 1)
+    t3 = time.time()
     random_mixed(ctx, res, rng)
+    res.distribution['mixed_wall_s'] = round(time.time() - t3, 1)
+    res.nontrivial = sweep_nontrivial + len(res.nontrivial)
+    by = {}
+    for w in res.witnesses:
+        k = finding_of(w) or 'UNCLASSIFIED'
+        by[k] = by.get(k, 0) + 1
+    res.distribution['witnesses_by_finding'] = by
     return res
 
 
@@ -1116,18 +1272,7 @@ def replay(w):
         T = measure_tables(spec, w['configured'], w['debug'], canon)
         events = [tuple(e) for e in w['events']]
         obs, _ = run_sequence(spec, w['configured'], w['debug'], canon, T, events)
-        last = None
-        for (e, s) in events[:-1]:
-            if e is not None and T['stage'][e][0] == 'valid':
-                last = e
-        e, s = events[-1]
-        cache = {}
-        if w['configured']:
-            want = fresh_reference(spec, True, w['debug'], canon, cache, None, s)
-        else:
-            want = fresh_reference(spec, False, w['debug'], canon, cache, e if e is not None else last, s)
-            if e is None:
-                want = strip_inferred(want)
+        want = demanded(spec, w['configured'], w['debug'], canon, T, {}, events)
         got = obs[-1][0]
         calls = [(None if ee is None else canon.expects[ee], canon.inputs[ss]) for ee, ss in events]
         return got != want, ('%s(%s%s): calls %r\n  reused grader, last call : %s\n  fresh grader            : %s'
@@ -1157,19 +1302,27 @@ def finding_of(w):
     kind = w.get('kind')
     if kind == 'history' and not w.get('configured'):
         ev, stages, texts = w.get('events', []), w.get('stages', []), w.get('text_inputs', [])
-        if len(ev) == 2:
-            # one earlier call, then the call that goes wrong
-            if stages[0] == 'post' and w['grader'] in ('SingleListGrader', 'IntervalGrader'):
-                return FINDINGS['poison']
-            if w.get('debug') and (stages[0] == 'schema' or (stages[0] == 'valid' and not texts[0])):
-                return FINDINGS['stale-log']
-        if len(ev) == 3 and stages[1] == 'post' and stages[0] == 'valid' and ev[2][0] is None \
-                and w['grader'] in ('SingleListGrader', 'IntervalGrader'):
-            # a valid expect, then one failing post-validation, then a call without expect
+        n = len(ev)
+        if n == 2 and stages[0] == 'post' and w['grader'] in ('SingleListGrader', 'IntervalGrader'):
+            # one call whose expect passes the schema and fails post-validation, then the call that goes wrong
             return FINDINGS['poison']
+        if w.get('debug') and n in (2, 3) and w.get('same_verdict'):
+            # the call right before raised after create_debuglog and before log_created was cleared:
+            # (expect rejected by the schema / post-validation) or (valid expect with a non-text input);
+            # the verdict is right, the log shown starts with that earlier call's input
+            prev_leaky = stages[n - 2] in ('schema', 'post') or (stages[n - 2] == 'valid' and not texts[n - 2])
+            log = w.get('observed_log') or []
+            stale = len(log) >= 2 and log[0] == ['V'] and log[1] == ['R', ev[n - 2][1]]
+            first_ok = n == 2 or (stages[0] == 'valid' and texts[0] and ev[2][0] is None)
+            if prev_leaky and stale and first_ok:
+                return FINDINGS['stale-log']
     if kind == 'construct' and w.get('grader') == 'IntervalGrader' and w.get('mode') in ('dict', 'dict-twice') \
             and "keys added ['subgrader'], removed [], changed []" in w.get('what', ''):
         return FINDINGS['author-dict']
+    if kind == 'mixed' and w.get('world') == 'shared':
+        calls, stages = w.get('calls', []), w.get('stages', [])
+        if len(calls) == 2 and calls[0][0] == calls[1][0] and calls[0][0].startswith('single_') and stages[0] == 'post':
+            return FINDINGS['poison']
     if kind == 'mixed' and w.get('world') == 'debugsub':
         calls = w.get('calls', [])
         if len(calls) == 2 and calls[0][0] == 'fgd' and calls[1][0] == 'single_fd' and 'Could not check input' in w.get('what', ''):
